@@ -299,7 +299,7 @@ def run(ctx):
 
     # ---- (a) permutations, (c) dummy creations / raised counters: whole catalogue per process ----
     histories = [{"tag": "ref", "kind": "reference (walk order, no pre-history)", "modules": modules, "hashseed": 0}]
-    n_perm, n_dummy, n_raised = ctx.pick((3, 3, 2), (12, 6, 5))
+    n_perm, n_dummy, n_raised = ctx.pick((3, 2, 2), (12, 6, 5))
     for i in range(n_perm):
         order = modules[:]
         rng.shuffle(order)
@@ -310,10 +310,10 @@ def run(ctx):
         order = modules[:]
         if i % 2:
             rng.shuffle(order)
-        # every dummy-creation history also runs the core warm-up (all public helpers of core.geometry / fields / vectors /
+        # every second dummy-creation history (the first one always) also runs the core warm-up (all public helpers of core.geometry / fields / vectors /
         # coordinate_systems / points on two fresh instances of each system kind): state a helper keeps is populated by someone else
-        histories.append({"tag": f"dummy{i}", "kind": "core helpers exercised and dummy objects created first", "modules": order,
-            "dummies": rng.choice([150, 400, 900, 2500]), "warmup": True, "hashseed": rng.randrange(1, 2**32 - 1)})
+        histories.append({"tag": f"dummy{i}", "kind": "core helpers exercised and dummy objects created first" if i % 2 == 0 else "dummy creations first", "modules": order,
+            "dummies": rng.choice([150, 400, 900, 2500]), "warmup": i % 2 == 0, "hashseed": rng.randrange(1, 2**32 - 1)})
     for i in range(n_raised):
         order = modules[:]
         if i % 2:
@@ -469,11 +469,52 @@ def run(ctx):
             tasks.append([name, {p: lead * 10**e for p in delta}])
             n_states += 1
             n_lead_states += 1
+    # core warm-up, then the module alone (minimal history for state kept by core helpers): quick -- the modules whose source
+    # mentions the core geometry / field / vector / coordinate-system helpers plus the full sample; thorough -- every module
+    def uses_core(n):
+        try:
+            src = (REPO / (n.replace(".", "/") + ".py")).read_text()
+        except OSError:
+            return False
+        return any(w in src for w in ("core.geometry", "core.fields", "core.coordinate_systems", "core.vectors", "core.points",
+            "CoordinateSystem", "ScalarField", "VectorField", "QuantityVector", "volume_element", "Vector("))
+    warm = [n for n in modules if alone.get(n, {}).get("import") == "ok" or n not in alone] if not ctx.quick else \
+        sorted({n for n in modules if uses_core(n)} | full)
+    nw = 4 if ctx.quick else NPROC              # the warm-up itself costs ~11 s per parent process
+    wshards = [[[n, {}] for n in warm[i::nw]] for i in range(nw)]
+    wseeds = [rng.randrange(1, 2**32 - 1) for _ in wshards]
     rng.shuffle(tasks)
     shards = [tasks[i::NPROC] for i in range(NPROC)]
     seeds = [rng.randrange(1, 2**32 - 1) for _ in shards]
     pass2 = parallel([(lambda k=k, sh=sh: run_worker(ctx, f"states{k}", {"mode": "fork", "tasks": sh, "calc": True, "argseed": argseed,
         "srepr": True}, seeds[k], timeout=1500)) for k, sh in enumerate(shards) if sh])
+    passw = parallel([(lambda k=k, sh=sh: run_worker(ctx, f"warm{k}", {"mode": "fork", "tasks": sh, "calc": True, "argseed": argseed,
+        "srepr": True, "warmup": True}, wseeds[k], timeout=1500)) for k, sh in enumerate(wshards) if sh])
+    compared_w = 0
+    warm_ref = {}
+    need_ref = [n for n in warm if n not in alone]
+    if need_ref:      # quick: core-using modules outside the sample have no module-alone baseline yet
+        for r in parallel([(lambda k=k, sh=sh: run_worker(ctx, f"alone_w{k}", {"mode": "fork", "tasks": sh, "calc": True, "argseed": argseed,
+                "srepr": True}, 0)) for k, sh in enumerate([[[n, {}] for n in need_ref[i::NPROC]] for i in range(NPROC)]) if sh]):
+            for name, lst in r.get("modules", {}).items():
+                warm_ref[name] = lst[0]
+    for k, r in enumerate(passw):
+        if "worker_error" in r:
+            ctx.violation(f"C03:worker:warm{k}", f"core warm-up worker failed: {r['worker_error'][:300]}",
+                {"kind": "broken-tie", "theorem_or_tie": "c03_worker fork mode with warm-up"}, found_input=False)
+            continue
+        for name, lst in r["modules"].items():
+            base = alone.get(name) or warm_ref.get(name)
+            if base is None:
+                continue
+            compared_w += 1
+            for d in compare(base, lst[0]):
+                diffs.append(({"tag": f"stateswarm{k}", "kind": "core helpers exercised first, then the module alone", "warmup": True,
+                    "counters": {}, "hashseed": wseeds[k]}, name, *d, lst[0]))
+    for n, o in warm_ref.items():
+        alone.setdefault(n, o)
+    ctx.coverage["core_warmup_modules"] = len(warm)
+    ctx.coverage["core_warmup_observations_compared"] = compared_w
     compared_b = 0
     for k, r in enumerate(pass2):
         if "worker_error" in r:
@@ -550,7 +591,7 @@ def run(ctx):
 
 def replay_spec(h, name):
     if str(h.get("tag", "")).startswith("states") or h.get("tag") == "alone":
-        return {"mode": "fork", "tasks": [[name, h.get("counters") or {}]], "hashseed": h.get("hashseed", 0)}
+        return {"mode": "fork", "tasks": [[name, h.get("counters") or {}]], "warmup": bool(h.get("warmup")), "hashseed": h.get("hashseed", 0)}
     mods = h.get("modules", [])
     upto = mods[:mods.index(name) + 1] if name in mods else [name]
     return {"mode": "perm", "modules": upto, "dummies": h.get("dummies", 0), "counters": h.get("counters"), "warmup": bool(h.get("warmup")),
